@@ -78,8 +78,13 @@ def test_state(rep, st, box, rng, tier):
     def fail(clause, what, **kw):
         fails.append(clause)
         rep.violation(clause, dict(sig, D=D), dict(case, **kw), what='D=%d (%d,%d) boundary=%s box %s-%s: %s' % (D, lmin, lmax, bnd, list(a), list(b), what))
+    # half of the cases use a combination object that has already computed another level range (history dependence)
+    prev = rng.choice([None, (1, 2), (lmax, lmax), (1, 1)]) if lmax <= 3 else None
+    case['previous_use'] = prev
     try:
         with impl.quiet(), impl.watchdog(240):
+            if prev is not None:
+                combi.perform_operation(prev[0], max(prev))
             scheme, _, res = combi.perform_operation(lmin, lmax)
     except impl.Timeout:
         rep.exclude('%s: timeout' % case)
